@@ -170,11 +170,46 @@ fn kernel_accepts(args: &[Vec<u8>], env: &[(String, String)]) -> bool {
     matches!(c.status(), Ok(st) if st.success())
 }
 
-impl Property for C06 {
-    const ID: &'static str = "C06";
-    type Sc = Sc;
+/// Every invocation is a real fork and exec: whatever the families above drew, the number of
+/// invocations a scenario needs stays in the low thousands (the argument groups are scaled
+/// down, their lengths and everything else stay).
+fn cap_invocations(sc: &mut Sc) {
+    const MAX_INVOCATIONS: usize = 3000;
+    let total_args: usize = sc.groups.iter().map(|g| g.0).sum();
+    if total_args == 0 {
+        return;
+    }
+    let per: usize = if sc.replace {
+        1
+    } else {
+        let total_bytes: usize = sc.groups.iter().map(|g| g.0 * (g.1 + 1)).sum();
+        let avg = (total_bytes / total_args).max(1);
+        let base: usize = 12 + sc.initial.iter().map(|a| a.len() + 1).sum::<usize>();
+        let mut per = usize::MAX;
+        for o in &sc.opts {
+            match o {
+                Opt::S(s) => per = per.min((s.saturating_sub(base) / avg).max(1)),
+                Opt::N(n) => per = per.min((*n).max(1)),
+                Opt::L(l) => per = per.min((l * sc.words_per_line.max(1)).max(1)),
+                _ => {}
+            }
+        }
+        per
+    };
+    if per == usize::MAX {
+        return;
+    }
+    let invocations = total_args.div_ceil(per);
+    if invocations > MAX_INVOCATIONS {
+        let keep = (MAX_INVOCATIONS * per) as f64 / total_args as f64;
+        for g in sc.groups.iter_mut() {
+            g.0 = ((g.0 as f64 * keep) as usize).max(1);
+        }
+    }
+}
 
-    fn generate(rng: &mut Rng, tier: Tier) -> Sc {
+impl C06 {
+    fn gen_inner(rng: &mut Rng, tier: Tier) -> Sc {
         let rlimit_stack = match rng.weighted(&[30, 10, 10, 8, 20, 6, 6, 5, 5]) {
             0 => Some(512 * 1024), // kernel budget at its 128 KiB floor
             1 => Some(1 << 20),
@@ -395,6 +430,18 @@ impl Property for C06 {
             words_per_line,
             multibyte: rng.chance(1, 5),
         }
+    }
+
+}
+
+impl Property for C06 {
+    const ID: &'static str = "C06";
+    type Sc = Sc;
+
+    fn generate(rng: &mut Rng, tier: Tier) -> Sc {
+        let mut sc = C06::gen_inner(rng, tier);
+        cap_invocations(&mut sc);
+        sc
     }
 
     fn budget(tier: Tier) -> u64 {
